@@ -94,11 +94,40 @@ def _rowwise_check(a):
     pts = _poly(a)
     s = a["spacing"]
     nogo = a.get("nogo")
+    if a.get("zone"):  # a convex no-go zone strictly inside the lot: the outline shrunk about its centroid
+        cx, cy = sum(p[0] for p in pts) / len(pts), sum(p[1] for p in pts) / len(pts)
+        nogo = [[[cx + a["zone"] * (p[0] - cx), cy + a["zone"] * (p[1] - cy)] for p in pts]]
     budget = a.get("budget_s", 8)
+
+    def zone_clause(fld, what):
+        """none of the boreholes lies strictly inside a no-go zone (1e-6 m); a failure is classified by whether the row of the offending borehole runs through a vertex of the zone"""
+        for z in nogo or []:
+            inz = [p for p in fld if _inside_convex(z, p, -1e-6)[0]]
+            if inz:
+                q = inz[0]
+                rot_ = a.get("rot_deg", 0.0) * DEG_TO_RAD
+                through_vertex = any(abs((v[0] - q[0]) * math.sin(rot_) - (v[1] - q[1]) * math.cos(rot_)) < 1e-6 for v in z)
+                return {"why": f"{what}: borehole inside a no-go zone", "point": q, "depth_inside": _inside_convex(z, q, 0.0)[1], "zone": z, "outline": pts, "spacing": s,
+                        "rotation_deg": a.get("rot_deg", 0.0), "signature": "inside-no-go/" + ("row-through-a-zone-vertex" if through_vertex else "generic")}
+        return None
+
+    def outline_clause(fld, what):
+        bad_ = [(p, _inside_convex(pts, p, 1e-6)[1]) for p in fld if not _inside_convex(pts, p, 1e-6)[0]]
+        if bad_:
+            return {"why": f"{what}: borehole outside the outline", "point": bad_[0][0], "distance_outside": -bad_[0][1], "outline": pts, "rotation_deg": a.get("rot_deg", 0.0),
+                    "signature": "outside-outline" + ("/perimeter" if "perimeter" in what else "")}
+        return None
     with warnings.catch_warnings():
         warnings.simplefilter("ignore")
         shapes = gen_shape(pts, ng_zones=nogo)
         rot = a.get("rot_deg", 0.0) * DEG_TO_RAD
+        if nogo:
+            # the lot without its zones first: a failure of the plain generator (non-termination, exception) is reported as such, so that the zone clauses
+            # are judged only on lots the plain generator handles (with zones the same row mix-up surfaces as ValueError in less_than)
+            ok0, d0 = _rowwise_check({k: v for k, v in a.items() if k not in ("zone", "nogo", "perimeter", "sweep")} | {"check_translation": False})
+            if not ok0 and (d0.get("signature", "").startswith("no-termination/") or d0.get("signature", "").startswith("exception/")):
+                d0["why"] += " (the lot without its no-go zone)"
+                return False, d0
         try:
             done, field = _run_limited(lambda: gen_borehole_config(shapes[0], s, s, no_go=shapes[1], rotate=rot), budget)
         except (ZeroDivisionError, IndexError, KeyError, TypeError, ValueError) as e:
@@ -115,10 +144,9 @@ def _rowwise_check(a):
         if bad:
             return False, {"why": "borehole outside the outline", "point": bad[0][0], "distance_outside": -bad[0][1], "outline": pts, "rotation_deg": a.get("rot_deg", 0.0), "signature": "outside-outline"}
         if nogo:
-            for z in nogo:
-                inz = [p for p in field if _inside_convex(z, p, -1e-6)[0]]
-                if inz:
-                    return False, {"why": "borehole inside a no-go zone", "point": inz[0], "zone": z, "signature": "inside-no-go"}
+            v = zone_clause(field, "gen_borehole_config")
+            if v:
+                return False, v
         else:
             best = float("inf")
             for i in range(len(field)):
@@ -135,6 +163,25 @@ def _rowwise_check(a):
             ys = sorted({round(p[1] - a.get("shift", [0, 0])[1], 6) for p in field})
             if len(ys) != ny or any(abs(ys[k + 1] - ys[k] - s) > 1e-6 for k in range(len(ys) - 1)) and abs(h / s - round(h / s)) < 1e-9:
                 return False, {"why": "rows of the rectangle are not spacing-s rows", "rows": ys[:6], "signature": "lattice-rows"}
+        # perimeter placement: terminates, inside the outline, outside the zones
+        if a.get("perimeter"):
+            from ghedesigner.rowwise import two_space_gen_bhc
+
+            try:
+                done, pf = _run_limited(lambda: two_space_gen_bhc(shapes[0], s, s, no_go=shapes[1], rotate=rot, p_space=a["perimeter"] * s), budget)
+            except (ZeroDivisionError, IndexError, KeyError, TypeError, ValueError) as e:
+                import traceback
+
+                where = traceback.extract_tb(e.__traceback__)[-1]
+                return False, {"why": f"two_space_gen_bhc raised {type(e).__name__}: {e}", "where": f"{where.name}:{where.lineno}", "outline": pts, "spacing": s, "rotation_deg": a.get("rot_deg", 0.0),
+                               "perimeter_ratio": a["perimeter"], "signature": f"exception/{type(e).__name__}/{where.name}"}
+            if not done:
+                return False, {"why": f"two_space_gen_bhc did not terminate within {budget} s of CPU time", "outline": pts, "spacing": s, "rotation_deg": a.get("rot_deg", 0.0),
+                               "signature": "no-termination/" + pf}
+            pf = [list(map(float, p)) for p in pf]
+            v = outline_clause(pf, "two_space_gen_bhc (perimeter spacing)") or zone_clause(pf, "two_space_gen_bhc (perimeter spacing)")
+            if v:
+                return False, v
         # translation covariance
         if a.get("check_translation", True):
             t = a.get("translate", [13.0, 7.0])
@@ -174,6 +221,31 @@ def _rowwise_check(a):
             got = [list(map(float, p)) for p in res[0]]
             if sorted(got) != sorted([list(map(float, p)) for p in want]):
                 return False, {"why": "the optimiser did not return the field of the (first) tried rotation with the most boreholes", "returned": len(got), "counts": counts, "signature": "sweep-not-densest"}
+            if nogo:
+                # history: both optimisers were asked for the same lot, spacing and window WITHOUT the zones a moment ago; what they return for the lot WITH the zones
+                # must respect the zones (and the outline)
+                free = gen_shape(pts, ng_zones=None)
+                for opt_name, with_zones, without_zones in (
+                        ("field_optimization_fr", lambda: field_optimization_fr(s, step, shapes[0], ng_zones=shapes[1], rotate_start=lo * DEG_TO_RAD, rotate_stop=hi * DEG_TO_RAD),
+                         lambda: field_optimization_fr(s, step, free[0], ng_zones=None, rotate_start=lo * DEG_TO_RAD, rotate_stop=hi * DEG_TO_RAD)),
+                        ("field_optimization_wp_space_fr", lambda: field_optimization_wp_space_fr(0.8, s, step, shapes[0], ng_zones=shapes[1], rotate_start=lo * DEG_TO_RAD, rotate_stop=hi * DEG_TO_RAD),
+                         lambda: field_optimization_wp_space_fr(0.8, s, step, free[0], ng_zones=None, rotate_start=lo * DEG_TO_RAD, rotate_stop=hi * DEG_TO_RAD))):
+                    try:
+                        done, _ = _run_limited(without_zones, 8 * budget)
+                        done2, res2 = _run_limited(with_zones, 8 * budget) if done else (False, "skipped")
+                    except (ZeroDivisionError, IndexError, KeyError, TypeError, ValueError) as e:
+                        import traceback
+
+                        where = traceback.extract_tb(e.__traceback__)[-1]
+                        return False, {"why": f"{opt_name} raised {type(e).__name__}: {e}", "where": f"{where.name}:{where.lineno}", "outline": pts, "spacing": s, "sweep": a["sweep"],
+                                       "signature": f"exception/{type(e).__name__}/{where.name}"}
+                    if not done or not done2:
+                        return False, {"why": f"{opt_name} did not terminate", "outline": pts, "sweep": a["sweep"], "spacing": s, "signature": "no-termination/sweep/" + str(_ if not done else res2)}
+                    f3 = [list(map(float, p)) for p in res2[0]]
+                    v = outline_clause(f3, opt_name) or zone_clause(f3, opt_name + " (after the same sweep without zones)")
+                    if v:
+                        v["signature"] += "/sweep"
+                        return False, v
     return True, {"n": len(field)}
 
 
@@ -188,6 +260,11 @@ _RW_FIXED = [
     {"kind": "regular", "n": 6, "r": 40.0, "spacing": 10.0, "rot_deg": 30.0},
     {"kind": "rect", "w": 10.0, "h": 50.0, "spacing": 10.0, "rot_deg": 0.0, "shift": [10.0, 10.0]},      # a lot exactly one spacing wide: two columns
     {"kind": "rect", "w": 25.0, "h": 75.0, "spacing": 25.0, "rot_deg": 0.0},
+    {"kind": "rect", "w": 34.0, "h": 17.0, "spacing": 17.0, "rot_deg": 0.0, "shift": [33.3, 0.0]},      # recorded finding: a lot exactly one spacing high -> ZeroDivisionError
+    {"kind": "regular", "n": 9, "r": 80.0, "spacing": 25.0, "rot_deg": 0.0, "zone": 0.5, "check_translation": False},  # recorded finding: a row through a vertex of the zone -> boreholes inside the zone
+    {"kind": "rect", "w": 100.0, "h": 60.0, "spacing": 10.0, "rot_deg": 0.0, "shift": [10.0, 10.0], "zone": 0.37, "perimeter": 0.8, "sweep": [15.0, -45.0, 45.0]},  # zones + perimeter + sweep history
+    {"kind": "pts", "pts": [[0.0, 10.0], [70.0, 0.0], [110.0, 45.0], [60.0, 90.0], [5.0, 60.0]], "spacing": 10.0, "rot_deg": 15.0, "zone": 0.4, "perimeter": 0.6},
+    {"kind": "regular", "spacing": 25.0, "rot_deg": 15.0, "shift": [33.3, 0.0], "n": 10, "r": 30.0, "phase": 0.3, "zone": 0.4, "sweep": [15.0, -45.0, 0.0], "perimeter": 0.8},  # D18 (fixed): no rotation yields a borehole
 ]
 
 
@@ -226,12 +303,18 @@ def _rowwise_gen(rng):
                 a["pts"] = [[p[0] * f, p[1] * f] for p in a["pts"]]
     if rng.random() < 0.15:
         a["sweep"] = [rng.choice([5.0, 15.0]), -90.0, 90.0]
+    if rng.random() < 0.3:
+        a["zone"] = rng.choice([0.25, 0.4, 0.5])
+        if rng.random() < 0.4:
+            a["sweep"] = [15.0, rng.choice([-90.0, -45.0]), rng.choice([0.0, 90.0])]
+    if rng.random() < 0.25:
+        a["perimeter"] = rng.choice([0.6, 0.8, 1.0])
     return a
 
 
 native(f"{RW}:gen_borehole_config", _rowwise_check, _rowwise_gen, None,
        bound="real gen_borehole_config / field_optimization_fr on convex outlines with 3..12 vertices (rectangles, regular polygons, random sheared convex polygons; both orientations; touching one or both axes or "
-             "shifted), spacings 5..25 m, rotations -90..89.5 deg, sweeps of 5/15 deg: termination (8 s CPU per call; a terminating call takes under 0.2 s), inside the outline (1e-6 m), spacing, rectangle lattice count, translation covariance, densest rotation")
+             "shifted), spacings 5..25 m, rotations -90..89.5 deg, sweeps of 5/15 deg: termination (8 s CPU per call; a terminating call takes under 0.2 s), inside the outline (1e-6 m), spacing, rectangle lattice count, translation covariance, densest rotation; in about a third of the cases a convex no-go zone (the outline shrunk about its centroid by 0.25-0.5): no borehole inside it, also for the perimeter generator two_space_gen_bhc (ratios 0.6-1.0) and for both optimisers called with the zones right after the same sweep without them")
 
 
 # ---- deductive part: the rotation sweep (field generator abstract) and leaf helpers ---------------------------------------------------------------
